@@ -18,12 +18,18 @@ def canon(prog):
     return repr(prog)
 
 
-def work(progs):
+def work(task):
+    length, progs = task
     out = []
     for prog in progs:
         r = check_program(prog)
         r["prog"] = prog
         r.pop("vhdl", None)
+        if r["status"] in ("ok", "violation"):
+            # validate the oracle itself against CPython executing a generator rendering of the same program
+            n, mismatch = coro.validate_ref_against_cpython(prog, length)
+            r["cpy_traces"] = n
+            r["cpy_mismatch"] = mismatch
         out.append(r)
     return out
 
@@ -60,7 +66,7 @@ def main(run: Run):
     progs = list(program_family(run))
     run.count("programs_generated", len(progs))
     sample_every = max(1, len(progs) // 5)
-    tasks = list(chunked(progs, 25))
+    tasks = [(5 if run.thorough else 4, c) for c in chunked(progs, 25)]
     done = 0
     for kind, res in pmap(work, tasks, seed=run.seed):
         if kind != "ok":
@@ -70,6 +76,9 @@ def main(run: Run):
             done += 1
             st = r["status"]
             run.count("programs_" + st)
+            if r.get("cpy_mismatch"):
+                run.tool_error(f"reference machine disagrees with CPython for {canon(r['prog'])}: {r['cpy_mismatch']}")
+            run.count("ref_traces_validated_against_cpython", r.get("cpy_traces", 0))
             if st in ("ok", "violation"):
                 run.count("states", r.get("states", 0))
                 run.count("transitions", r.get("transitions", 0))
@@ -96,7 +105,8 @@ def main(run: Run):
     if acc * 2 < len(progs):
         run.tool_error(f"vacuous: only {acc} of {len(progs)} programs accepted by the compiler")
     run.assume("vsim (own VHDL-2008 subset simulator) implements IEEE 1076/numeric_std semantics; validated against 258 upstream testbenches")
-    run.assume("reference = coroutine abstract machine of DESIGN.md Appendix B (first-action rule also applied to loop heads)")
+    run.assume("reference = coroutine abstract machine of DESIGN.md Appendix B (first-action rule also applied to loop heads), validated "
+               "in this run against CPython executing a generator rendering of every accepted program on all input sequences of length 4 (5)")
     run.coverage_extra.update(
         exhaustive=not run.capped,
         rule="every program of the coroutine grammar up to the tier's size bound; per program the full reachable "
